@@ -24,7 +24,7 @@ Proof. pose proof (read_response_verdict s) as V. destruct (fst (read_response s
 
 Lemma ehlo_no_panic hello s : shut s = false -> panic s = false -> fst (ehlo hello s) <> Panic.
 Proof.
-  intros Hs Hp. unfold ehlo. pose proof (try_command (bs "EHLO " ++ hello ++ CRLF) s Hs Hp) as T.
+  intros Hs Hp. unfold ehlo. destruct (hello_ok hello); [|cbn; discriminate]. unfold ehlo_send. pose proof (try_command (bs "EHLO " ++ hello ++ CRLF) s Hs Hp) as T.
   destruct (try_smtp (command (bs "EHLO " ++ hello ++ CRLF) s)) as [[r|e|] s1]; cbn [step_post] in T; [|discriminate|contradiction].
   pose proof (from_response_no_panic r) as F. destruct (from_response r); cbn; try discriminate. contradiction.
 Qed.
